@@ -51,8 +51,12 @@ def disc_path(pc, i):
 
 def disc_file(case, i):
     name = "disc%d" % i
+    nm = case.get("nm", "plain")
+    written = {"plain": name, "raw": "r#" + name, "underscore": "_" + name}[nm]
+    if nm == "underscore":
+        name = "_" + name
     fn = "%s%s%sfn %s(%sx: i32) -> i32 {\n    x\n}\n" % (
-        ATTR_TEXT[case["attr"]], VIS[case["vis"]], "async " if case["async"] else "", name,
+        ATTR_TEXT[case["attr"]], VIS[case["vis"]], "async " if case["async"] else "", written,
         "&self, " if case["pos"] == "impl" else "")
     helper = "fn helper_%d() {}\n" % i
     if case["pos"] == "top":
@@ -192,7 +196,15 @@ def graph_source(i, g):
                 raise ValueError("derive spelling %s contradicts serde=%s" % (dk, serde))
         else:
             derive = "#[derive(Serialize, Deserialize)]\n" if serde else "#[derive(Debug, Clone)]\n"
-        put(n, "%spub struct %s%s {\n    pub id: u32,\n%s}\n" % (derive, pre, n, "".join(lines)))
+        nk = (g.get("nodekind") or {}).get(n, "named")
+        if nk == "unit" and not lines:
+            put(n, "%spub struct %s%s;\n" % (derive, pre, n))
+        elif nk == "empty_braces" and not lines:
+            put(n, "%spub struct %s%s {}\n" % (derive, pre, n))
+        elif nk == "enum" and not lines:
+            put(n, "%spub enum %s%s {\n    First,\n    SecondOne,\n}\n" % (derive, pre, n))
+        else:
+            put(n, "%spub struct %s%s {\n    pub id: u32,\n%s}\n" % (derive, pre, n, "".join(lines)))
         types[pre + n] = {"serde": serde, "fields": fields}
     roots = []
     for j, r in enumerate(sorted(g["roots"], key=lambda r: r.get("ord", 0))):
